@@ -725,7 +725,8 @@ class Prop(fw.PropBase):
             'chain_header_length_hist': {'<200': sum(1 for x in hl if x < 200), '200-249': sum(1 for x in hl if 200 <= x < 250),
                                          '250-254': sum(1 for x in hl if 250 <= x <= 254)},
             'chain_headers_refused_too_long': refused, 'accepted_by_header_form': forms,
-            'exhaustive': 'phred characters 0..299 (covers 33..126) one by one; fqSafe characters 0..399 one by one',
+            'exhaustive': False,
+            'exhaustive_scopes': 'phred characters 0..299 (covers 33..126) one by one; fqSafe characters 0..399 one by one',
         })
         if not self.model_ok:
             return
